@@ -44,6 +44,9 @@ pub fn rerun_ops() -> Vec<HostOp> {
         HostOp::Instantiate { slot: 0 },
         HostOp::Run { slot: 0, func: "main".into() },
         HostOp::DropAllResults,
+        // a second run with nothing reset: a budget that tripped must still be tripped
+        HostOp::Run { slot: 0, func: "main".into() },
+        HostOp::DropAllResults,
         HostOp::ResetCalls,
         HostOp::ResetTimeout,
         HostOp::Run { slot: 0, func: "main".into() },
@@ -178,6 +181,8 @@ const CALLEES: &[(&str, usize, &str, &str)] = &[
     ("user-fn-2", 2, "int", "v_u2({0}, {1})"),
     ("user-fn-3", 3, "int", "v_u3({0}, {1}, {2})"),
     ("method-call", 3, "int", "{0}.v_u3({1}, {2})"),
+    ("partial-curried", 2, "(int)->(int)", "partial(v_u3, {0}, {1})"),
+    ("partial-curried-in-array", 1, "int", "[partial(v_u2, {0})].len()"),
     ("lambda-call", 2, "int", "((v_x: int, v_y: int)->{v_x + v_y})({0}, {1})"),
     ("struct-1", 1, "V_T1", "V_T1({0})"),
     ("struct-2", 2, "V_T2", "V_T2({0}, {1})"),
